@@ -106,6 +106,8 @@ PROPERTIES["C16"] = {
        for s in ((1, 4), (2, 9), (0, 0), (1, 16))]
     + [MH("c16_woff_k%d" % k, inputs="package with 2-entry signature header (3 padding bytes), 1-entry main header, 3 payload bytes, contents symbolic", timeout=600,
           bounds="Package::write into a sink accepting %d byte(s) per call, then get_package_segment_offsets vs the positions in the bytes the sink received" % k, covers_unsat_ok=["write fails"]) for k in (1, 2, 3, 5)]
+    + [MH("c16_built_" + n, inputs="a package built by this library with files of %s symbolic bytes" % (n.replace("_", "/") if n != "empty" else "no"), timeout=900,
+          bounds="offsets of a built package vs the bytes Package::write emits") for n in ("empty", "1", "2_3")]
     + [H("c16_twin", role="twin", timeout=60)],
     "bounds": "arithmetic: all intro field values with each header below 2^31 bytes; bytes: headers of one entry, store sizes 0..9 (every residue mod 8), payload 0..3 bytes",
     "outside": "headers >= 2^31 bytes (u32 overflow in the sum); the invariant num_entries == index_entries.len() and data_section_size == store.len() that links the arithmetic to real packages is established by parse/from_entries (C01/C09 harnesses) and assumed here",
@@ -272,6 +274,8 @@ PROPERTIES["C03"] = {
     + [MH("c03_%slen_%d" % (k, l), timeout=900, inputs="recorded %s of %d symbolic characters (not %d)" % (nm, l, full), bounds="a recorded digest of the wrong length must never verify",
           covers_unsat_ok=["verification succeeds", "verification fails"])
        for (k, nm, full, ls) in (("sha1", "SHA1 header digest", 40, (0, 1, 39, 41)), ("sha256", "SHA256 header digest", 64, (0, 1, 63, 65)), ("pd", "payload digest", 64, (0, 1, 63, 65))) for l in ls]
+    + [MH("c03_built_" + n, inputs="a package built by this library with files of %s symbolic bytes" % (n.replace("_", "/") if n != "empty" else "no"), timeout=900,
+          bounds="liveness: verify_digests of a freshly built package (builder and verifier both from MIR) succeeds", covers_unsat_ok=["verification succeeds", "verification fails"]) for n in ("empty", "1", "2_3")]
     # lemma the MIR harnesses rest on: verify_digests hashes the re-serialised header, so "the file's bytes" are covered only if parse -> write reproduces them
     + [H("c01_index_entry", sub="codec", role="lemma", inputs="all 16 entry bytes + 3 trailing bytes", bounds="lemma: an accepted index entry is written back byte for byte (Kani)", timeout=300),
        H("c01_index_entry_sig", sub="codec", role="lemma", inputs="all 16 entry bytes", bounds="lemma, IndexSignatureTag instance (Kani)", timeout=300),
